@@ -285,6 +285,25 @@ reg('C16', 'exploration',
     'Particles are kept 1e-9 clear of the zone planes; a step moves less '
     'than a zone length; ghost arrays are kept mirror images by the mover.')
 
+reg('C05', 'exploration',
+    'differential monitoring of whole runs: the same small simulations run '
+    'through Application.run(argv) in separate processes under every '
+    'combination class of --nnps / --cache-nnps / --openmp + thread count + '
+    'schedule / --reorder-freq / --sort-gids; final states matched by unique '
+    'particle id and compared with the reference run (bit for bit where '
+    'neighbours are sorted, to 1e-7 of the property scale otherwise), twin '
+    'runs compared bit for bit; OpenMP runs with 2-8 threads also under '
+    'ThreadSanitizer with the generated module instrumented',
+    'Held on everything explored except the listed findings: per quick run '
+    '~80 complete runs of three problems (free-surface drop; tank with two '
+    'fluids and a wall; doubly periodic vortex) covering all ten NNPS '
+    'classes, cache on/off, 1-16 threads, re-ordering every 1-7 steps, '
+    'twins; thorough ~590 runs.  Known: sfc / strat_sfc lose cross-array '
+    'neighbours (same defect as C01), sh / esh / strat_hash refuse '
+    're-ordering with NotImplementedError.',
+    'Fixed time step; 20-25 steps; interleavings are those the OS produced, '
+    'with TSan as the race oracle (0 reports, positive control passes).')
+
 _pending = {
 }
 for _i in range(1, 21):
